@@ -1,2 +1,4 @@
+from bounded import jsonlib_conformance
 from bounded import c01_endtoend
 EXTRA_CHECKS = [c01_endtoend.run]
+EXTRA_CHECKS = list(EXTRA_CHECKS) + [jsonlib_conformance.run]
